@@ -30,8 +30,15 @@ META = {
                    'proves for every schedule: the sampled vectors of any two iterations are distinct (different generator state or '
                    'different draw index), every variate is requested from the executing process\'s generator with the settings\' '
                    'distribution and parameters in order, is written to the simulated input with full precision (str/repr), and exactly '
-                   'one row is appended iff the iteration succeeded.',
-    'bounds': {t: {'(iterations K, workers W)': KW[t], 'settings': SETTINGS} for t in KW},
+                   'one row is appended iff the iteration succeeded. Main-level units (c13main): the REAL main() runs from the settings file to the end '
+                   'of the pool phase around a model of ProcessPoolExecutor (map with chunks: a chunk runs in one solver-chosen worker forked from the parent, '
+                   'an exception ends its chunk; submit), with os.cpu_count() part of the environment, uuid values fresh pairwise-distinct solver integers '
+                   '(masking them is integer arithmetic for the solver), explicit seeds (equal seed <=> equal stream) and, in the lock-outcome units, pylocker '
+                   'granting the lock with code 0/1/2 or refusing it: one header, ITERATIONS tasks, every iteration run whatever happens to the others, one row '
+                   'per successful iteration, distinct sample vectors. Counterexamples replay the real main() with the real pool, numpy and pylocker, the '
+                   'witness\' uuid values injected.',
+    'bounds': {t: {'(iterations K, workers W)': KW[t], 'settings': SETTINGS,
+                   'real main() around the pool model': 'c13main.BOUNDS (iterations, workers, settings, lock outcomes) and MANY (8-16 iterations on a 1-2 processor machine)'} for t in KW},
     'outside': ['statistical quality of numpy\'s PRNG (idealised: distinct states / indices give distinct continuous variates)',
                 'more than 6 iterations / 4 workers (two workers suffice for the inheritance argument)', 'the OS scheduler beyond the assignment of iterations to workers'],
     'assumptions': ['os.fork copies the parent\'s generator state; OS entropy reseeds are pairwise distinct (DESIGN Appendix D)',
@@ -144,13 +151,79 @@ def units(tier, seed):
     for (K, W) in KW[tier]:
         for si in range(len(SETTINGS)):
             us.append({'K': K, 'W': W, 'settings': si, 'code': 'hip_ra_x.py' if si % 2 else 'GEOPHIRESv3.py'})
+    from . import c13main
+    us += c13main.units(tier)
     return us
 
 
 _REPLAYED = {}
 
 
+def check_obs(log, c, obs, settings, zv, concrete_dups, concrete_precision, first=False, row_finding=None):
+    """the C13 obligations over the observations of one explored schedule (shared with the main()-level harness)."""
+    obs = [o for o in obs if not o.get('skipped')]
+    # environment contract: all entropy states are pairwise distinct and differ from the inherited parent state
+    ent = set()
+    for o in obs:
+        for d in o['draws']:
+            if d.state is not None and z3.is_const(d.state) and not z3.is_int_value(d.state):
+                ent.add(d.state)
+    seeded_ids = {q[1].get_id() for q in mcworld.Gen.seed_pairs}
+    ent = [e for e in {e.get_id(): e for e in ent}.values() if e.get_id() not in seeded_ids]
+    distinct = [z3.Distinct(*ent)] if len(ent) > 1 else []
+    # explicit seeds: two generators seeded with equal values replay the same stream, with different values different streams;
+    # an explicitly seeded stream is never an entropy-seeded one
+    sp = list(mcworld.Gen.seed_pairs)
+    for i in range(len(sp)):
+        for j in range(i + 1, len(sp)):
+            distinct.append((sp[i][0] == sp[j][0]) == (sp[i][1] == sp[j][1]))
+        for e in ent:
+            distinct.append(e != sp[i][1])
+    harness.reachable(log, c, 1000)
+    for o in obs:
+        it = o['it']
+        sm = sampled(o, settings)
+        # (2) every variate is requested from the executing process's generator with the settings' parameters, in order
+        ok_req = len(o['draws']) == len(settings)
+        for d, s in zip(o['draws'], settings):
+            want = tuple(float(x) if s[1] != 'binomial' or i else int(x) for i, x in enumerate(s[2:]))
+            ok_req = ok_req and d.dist == s[1] and tuple(float(x) for x in d.params) == tuple(float(x) for x in want)
+        harness.discharge(log, c, f'iteration {it}: one variate per INPUT, requested from the executing process\'s numpy generator with the settings\' distribution and parameters',
+                          bool(ok_req), zv, concrete_dups, sample=(first and it == 0))
+        if sm is not None and ok_req:
+            # (4) what the simulation receives is the variate itself, at full precision
+            ok_txt = len(sm) == len(settings)
+            for (name, val), d, s in zip(sm, o['draws'], settings):
+                mt = DRAW_RE.fullmatch(val.strip())
+                ok_txt = ok_txt and name == s[0] and mt is not None and int(mt.group(1)) == d.uid and mt.group(2) in ('str', 'repr')
+            harness.discharge(log, c, f'iteration {it}: the simulated input carries (name, variate) for every INPUT in order, the variate written with full precision',
+                              bool(ok_txt), zv, concrete_precision)
+        # (3) exactly one row iff the iteration succeeded
+        app = o['appended']
+        nrows = None if app is None else app.count('\n')
+        lost = (not o.get('lock_acquired', True)) and not (o['raised'] or o['failed'])
+        harness.discharge(log, c, f'iteration {it}: exactly one result row is appended iff the simulated run succeeded'
+                          + (' [region: the results-file lock was not granted]' if lost else ''),
+                          app is not None and nrows == (0 if o['raised'] or o['failed'] else 1), zv,
+                          (row_finding[1] if lost and row_finding else (lambda inp: (True, {'note': 'row accounting in the in-memory world'}))),
+                          finding=(row_finding[0] if lost and row_finding else None))
+    # (1) any two iterations sampled different vectors
+    for a in range(len(obs)):
+        for b in range(a + 1, len(obs)):
+            da, db = obs[a]['draws'], obs[b]['draws']
+            if len(da) != len(settings) or len(db) != len(settings):
+                continue
+            same = z3.And([z3.And(x.state == y.state, x.k == y.k) for x, y in zip(da, db)])
+            harness.discharge(log, c, f'iterations {a} and {b} (workers {obs[a]["worker"]}, {obs[b]["worker"]}) draw different sample vectors',
+                              z3.Not(same), zv, concrete_dups, extra=distinct,
+                              finding='C13-forked-workers-share-rng-state' if obs[a]['worker'] != obs[b]['worker'] else None)
+
+
 def run_unit(unit):
+    if unit.get('harness') == 'main':
+        from . import c13main
+        yield from c13main.run_unit(unit)
+        return
     K, W, si, code = unit['K'], unit['W'], unit['settings'], unit['code']
     settings = [list(s) for s in SETTINGS[si]]
     cfg = {'K': K, 'W': W, 'settings': SETTINGS[si], 'code': code}
@@ -186,50 +259,7 @@ def run_unit(unit):
             raise pr.error
         if pr.aborted:
             continue
-        c = pr.ctx
-        obs = pr.value
-        # environment contract: all entropy states are pairwise distinct and differ from the inherited parent state
-        ent = set()
-        for o in obs:
-            for d in o['draws']:
-                if d.state is not None and z3.is_const(d.state) and not z3.is_int_value(d.state):
-                    ent.add(d.state)
-        ent = list({e.get_id(): e for e in ent}.values())
-        distinct = [z3.Distinct(*ent)] if len(ent) > 1 else []
-        harness.reachable(log, c, 1000)
-        for o in obs:
-            it = o['it']
-            sm = sampled(o, settings)
-            # (2) every variate is requested from the executing process's generator with the settings' parameters, in order
-            ok_req = len(o['draws']) == len(settings)
-            for d, s in zip(o['draws'], settings):
-                want = tuple(float(x) if s[1] != 'binomial' or i else int(x) for i, x in enumerate(s[2:]))
-                ok_req = ok_req and d.dist == s[1] and tuple(float(x) for x in d.params) == tuple(float(x) for x in want)
-            harness.discharge(log, c, f'iteration {it}: one variate per INPUT, requested from the executing process\'s numpy generator with the settings\' distribution and parameters',
-                              bool(ok_req), zv, concrete_dups, sample=(n == 1 and it == 0))
-            if sm is not None and ok_req:
-                # (4) what the simulation receives is the variate itself, at full precision
-                ok_txt = len(sm) == len(settings)
-                for (name, val), d, s in zip(sm, o['draws'], settings):
-                    mt = DRAW_RE.fullmatch(val.strip())
-                    ok_txt = ok_txt and name == s[0] and mt is not None and int(mt.group(1)) == d.uid and mt.group(2) in ('str', 'repr')
-                harness.discharge(log, c, f'iteration {it}: the simulated input carries (name, variate) for every INPUT in order, the variate written with full precision',
-                                  bool(ok_txt), zv, concrete_precision)
-            # (3) exactly one row iff the iteration succeeded
-            app = o['appended']
-            nrows = None if app is None else app.count('\n')
-            harness.discharge(log, c, f'iteration {it}: exactly one result row is appended iff the simulated run succeeded',
-                              app is not None and nrows == (0 if o['raised'] or o['failed'] else 1), zv, lambda inp: (True, {'note': 'row accounting in the in-memory world'}))
-        # (1) any two iterations sampled different vectors
-        for a in range(len(obs)):
-            for b in range(a + 1, len(obs)):
-                da, db = obs[a]['draws'], obs[b]['draws']
-                if len(da) != len(settings) or len(db) != len(settings):
-                    continue
-                same = z3.And([z3.And(x.state == y.state, x.k == y.k) for x, y in zip(da, db)])
-                harness.discharge(log, c, f'iterations {a} and {b} (workers {obs[a]["worker"]}, {obs[b]["worker"]}) draw different sample vectors',
-                                  z3.Not(same), zv, concrete_dups, extra=distinct,
-                                  finding='C13-forked-workers-share-rng-state' if obs[a]['worker'] != obs[b]['worker'] else None)
+        check_obs(log, pr.ctx, pr.value, settings, zv, concrete_dups, concrete_precision, first=(n == 1))
     yield log.result()
 
 
